@@ -168,7 +168,7 @@ def gen_case(rng, flavour):
         kind_ds[kind] = ds
         lines.append(f"tab {kind} {ds} ?")
         if kind == "avgani":
-            lines.append("tab avganicmp 0 ?")
+            lines.append(f"tab cani {ds} ?")      # what the builder evaluates; `avgani` itself is the oracle's reference
         for pi, perm in enumerate(perms):
             ps = ",".join(map(str, perm)) or "-"
             for func in FUNCS[kind]:
@@ -248,6 +248,7 @@ def oracle(case, impl):
         M = [ow[2 + a * m:2 + (a + 1) * m] for a in range(m)]
         if need_err:
             if kind == "avgani" and mixed:
+                # regression of C16.2 (repaired by /repo b596f84)
                 bad.append((idx, "C16:avg_containment_ani:downsample-flag-ignored",
                             f"compare_serial_avg_containment(return_ani=True, downsample={bool(ds)}) returned a matrix "
                             f"where the pairwise avg_containment_ani(downsample={bool(ds)}) raises (mixed scaled)"))
@@ -275,7 +276,7 @@ def oracle(case, impl):
                         break
                     if M[a][b] != v1 or M[a][b] != v2:
                         if kind == "avgani" and mixed:
-                            sig = "C16:avg_containment_ani:downsample-flag-ignored"
+                            sig = "C16:avg_containment_ani:downsample-flag-ignored"       # regression of C16.2
                         elif v1 != v2 and kind == "maxc" and mixed and ds == 1:
                             sig = "C16:max_containment:asymmetric-pairwise-mixed-scaled"
                         elif v1 != v2:
